@@ -139,8 +139,11 @@ func (c *StallConn) Close() error {
 		close(c.codeCh)
 	}
 	c.mu.Unlock()
+	// the socket first, the stalled step afterwards: when the blocked I/O fails the
+	// connection IS closed (a real socket never releases it earlier)
+	err := c.inner.Close()
 	c.once.Do(func() { close(c.closeCh) })
-	return c.inner.Close()
+	return err
 }
 
 // Teardown is the harness's own close: it releases everything without
